@@ -253,6 +253,26 @@ def brute(rng, tier):
             lc = torch.stack([lpts[v].double().mean(0) for _, v in sorted(groups.items())])
             if lo.shape != lc.shape or not torch.allclose(torch.sort(lo.double(), 0).values, torch.sort(lc, 0).values, atol=1e-3 if ldt == torch.float32 else 1e-9):
                 fails.append(dict(clause='voxel_filter_lattice_points', signature=f'{str(ldt).split(".")[-1]}/vox={vsz}', n=n, voxels_returned=int(lo.shape[0]), voxels_expected=len(groups)))
+        # voxel_filter on clouds whose voxel GRID is huge (2^33 cells per axis and more: the grid has far more than 2^64 cells, the cloud a
+        # few dozen points): voxels are identified by their integer index ROWS, whatever the size of the grid
+        if t % 3 == 0:
+            hd = rng.choice([3, 4, 6])
+            E_ = 2 ** 13 if hd == 6 else 2 ** 32            # extent per axis (a power of two: products of extents wrap to 0 in 64-bit keys)
+            base_i = torch.randint(0, E_ - 1001, (max(2, n // 2), hd), generator=g)
+            base_i[0] = 0; base_i[1] = E_ - 1               # two corner points pin the extent of every axis to exactly E_
+            frac = torch.rand(base_i.shape[0], hd, dtype=torch.float64, generator=g) * 0.4 + 0.05
+            twin = base_i.double() + frac + 0.3                                           # a second point in the same voxel of every first one
+            shift = torch.zeros(hd, dtype=torch.float64); shift[rng.randrange(2)] = float(rng.choice([1, 2, 1000]))
+            other = (base_i.double() + frac + shift)[2:]                                       # ... and one in a DIFFERENT voxel that differs in one index only
+            hp = torch.cat([base_i.double() + frac, twin, other], 0)
+            hp = hp[torch.randperm(hp.shape[0], generator=g)]
+            ho = pp.voxel_filter(hp, [1.0] * hd); evals += 1
+            hk = torch.floor(hp - hp.min(0).values).to(torch.int64)
+            hg = {}
+            for i in range(hp.shape[0]): hg.setdefault(tuple(hk[i].tolist()), []).append(i)
+            hc = torch.stack([hp[v].mean(0) for _, v in sorted(hg.items())])
+            if ho.shape != hc.shape or not torch.allclose(torch.sort(ho, 0).values, torch.sort(hc, 0).values, rtol=1e-12, atol=1e-3):
+                fails.append(dict(clause='voxel_filter_huge_grid', signature=f'd={hd}', n=int(hp.shape[0]), voxels_returned=int(ho.shape[0]), voxels_expected=len(hg)))
         # random_filter
         num = rng.randrange(0, n + 1)
         rf = pp.random_filter(pts, num)
